@@ -10,6 +10,8 @@ import (
 	"runtime"
 	"strconv"
 	"strings"
+	"sync"
+	"sync/atomic"
 	"time"
 
 	"github.com/bbva/qed/balloon"
@@ -164,6 +166,9 @@ func c08LifeWorker(args []string) int {
 	per, _ := strconv.Atoi(args[1])
 	cycles, _ := strconv.Atoi(args[2])
 	withSnapshot := len(args) > 3 && args[3] == "snap" // take a raft snapshot in the middle of each cycle's insertions
+	if len(args) > 3 && args[3] == "load" {
+		return c08LifeLoadWorker(dir, cycles)
+	}
 	rh, ry := ref.NewHist(), ref.NewHyper()
 	total := 0
 	port := FreePort()
@@ -253,8 +258,127 @@ func c08LifeWorker(args []string) int {
 	return 0
 }
 
+// c08LifeLoadWorker: the node is stopped (Close(true)) while writers are inserting. The stop must not take
+// the process down, and after the restart every acknowledged event must sit at its acknowledged version and
+// the version must lie between the acknowledged and the submitted number of events.
+func c08LifeLoadWorker(dir string, cycles int) int {
+	port := FreePort()
+	type ack struct {
+		ev string
+		v  uint64
+	}
+	var mu sync.Mutex
+	var acks []ack
+	var submitted int64
+	for cy := 0; cy < cycles; cy++ {
+		nd, err := StartNode(NodeCfg{ID: "n0", Dir: dir, Port: port, Bootstrap: true, SnapshotThreshold: 8192, TrailingLogs: 10240})
+		if err != nil {
+			fmt.Printf("LIFE-ERROR cycle=%d start: %v\n", cy, err)
+			return 4
+		}
+		deadline := time.Now().Add(30 * time.Second)
+		for !nd.IsLeader() && time.Now().Before(deadline) {
+			time.Sleep(20 * time.Millisecond)
+		}
+		if !nd.IsLeader() {
+			fmt.Printf("LIFE-INCONCLUSIVE cycle=%d no leadership\n", cy)
+			return 3
+		}
+		mu.Lock()
+		nack := len(acks)
+		sample := append([]ack{}, acks...)
+		mu.Unlock()
+		// log replay may still be running right after start: wait until the version stands still
+		last := nd.Version()
+		for still := 0; still < 5 && time.Now().Before(deadline); {
+			time.Sleep(40 * time.Millisecond)
+			if v := nd.Version(); v == last {
+				still++
+			} else {
+				last, still = v, 0
+			}
+		}
+		if v := nd.Version(); v < uint64(nack) || v > uint64(atomic.LoadInt64(&submitted)) {
+			fmt.Printf("LIFE-VIOLATION version-after-stop-under-load cycle=%d version=%d acknowledged=%d submitted=%d\n", cy, v, nack, atomic.LoadInt64(&submitted))
+			return 5
+		}
+		for i := 0; i < len(sample); i += 1 + len(sample)/40 {
+			a := sample[i]
+			var exists bool
+			var actual uint64
+			err := Call(nd, func() error {
+				p, e := nd.N.QueryMembership([]byte(a.ev))
+				if e == nil {
+					exists, actual = p.Exists, p.ActualVersion
+				}
+				return e
+			})
+			if err != nil || !exists || actual != a.v {
+				fmt.Printf("LIFE-VIOLATION acknowledged-event-after-stop-under-load cycle=%d event=%s acknowledged_version=%d exists=%v actual=%d err=%v\n", cy, a.ev, a.v, exists, actual, err)
+				return 5
+			}
+		}
+		atomic.StoreInt64(&submitted, int64(nd.Version())) // what is in the log now counts as submitted and settled
+		// writers
+		stop, closing := int32(0), int32(0)
+		var wg sync.WaitGroup
+		for w := 0; w < 8; w++ {
+			wg.Add(1)
+			go func(w int) {
+				defer wg.Done()
+				for k := 0; atomic.LoadInt32(&stop) == 0; k++ {
+					n := 1 + (k+w)%3
+					evs := make([][]byte, n)
+					for j := range evs {
+						evs[j] = []byte(fmt.Sprintf("load-%d-%d-%d-%d", cy, w, k, j))
+					}
+					atomic.AddInt64(&submitted, int64(n))
+					// straight at the RaftNode (no harness guard): writers keep submitting while Close runs; a failure
+					// inside the writer's own call (the node is going away) is the writer's problem, not a verdict
+					var snaps []*balloon.Snapshot
+					var err error
+					if pan, _ := lib.Recover(func() { snaps, err = nd.N.AddBulk(evs) }); pan || err != nil || len(snaps) != n {
+						if atomic.LoadInt32(&closing) == 1 {
+							time.Sleep(time.Millisecond)
+						}
+						continue
+					}
+					mu.Lock()
+					for j, sn := range snaps {
+						acks = append(acks, ack{string(evs[j]), sn.Version})
+					}
+					mu.Unlock()
+				}
+			}(w)
+		}
+		time.Sleep(time.Duration(150+100*cy) * time.Millisecond)
+		atomic.StoreInt32(&closing, 1)
+		var cerr error
+		lib.Recover(func() { cerr = nd.N.Close(true) })
+		atomic.StoreInt32(&stop, 1)
+		nd.Close() // the harness's own bookkeeping (snapshot channel)
+		wdone := make(chan struct{})
+		go func() { wg.Wait(); close(wdone) }()
+		select {
+		case <-wdone:
+		case <-time.After(5 * time.Second):
+			// raft does not answer proposals that were still queued when it shut down: those callers stay blocked
+			fmt.Printf("LIFE-INFO cycle=%d some writers are still waiting for an answer from the stopped node\n", cy)
+		}
+		if cerr != nil {
+			fmt.Printf("LIFE-VIOLATION close-error cycle=%d: %v\n", cy, cerr)
+			return 5
+		}
+		mu.Lock()
+		fmt.Printf("LIFE-LOAD cycle=%d acknowledged=%d submitted=%d\n", cy, len(acks), atomic.LoadInt64(&submitted))
+		mu.Unlock()
+	}
+	fmt.Println("LIFE-DONE")
+	return 0
+}
+
 func RunC08(c *lib.Ctx) {
-	c.Rule = "cases: (a) balloon level on both back-ends: a log is closed and reopened (RocksDB: store closed and reopened; in-memory: new balloon over the same store) at a chain of stop points covering every prefix length 0..N, plus independent single-stop runs; after each reopen the version, the hyper-cache invariant, proofs for pre-stop events against pre-stop snapshots, and every later snapshot are compared with the reference trees (= an uninterrupted twin); (b) node level: child processes run open -> inserts -> Close(true) cycles of a real RaftNode on the same directories: exit status 0, no abort/assertion/panic on stderr, restarted node at the expected version with reference-equal snapshots, no per-cycle growth of open file descriptors; non-trivial = at least one reopen; distinct by (level, back-end, stop points)."
+	c.Rule = "cases: (a) balloon level on both back-ends: a log is closed and reopened (RocksDB: store closed and reopened; in-memory: new balloon over the same store) at a chain of stop points covering every prefix length 0..N, plus independent single-stop runs; after each reopen the version, the hyper-cache invariant, proofs for pre-stop events against pre-stop snapshots, and every later snapshot are compared with the reference trees (= an uninterrupted twin); (b) node level: child processes run open -> inserts -> Close(true) cycles of a real RaftNode on the same directories: exit status 0, no abort/assertion/panic on stderr, restarted node at the expected version with reference-equal snapshots, no per-cycle growth of open file descriptors; one lifecycle stops the node while 8 writers are inserting: the stop must not take the process down, and after the restart every acknowledged event sits at its acknowledged version; non-trivial = at least one reopen; distinct by (level, back-end, stop points)."
 	c.Assume = []string{"Debian librocksdb is built with assertions: a resource still referenced at Close aborts the child", "fd accounting compares the count after each cycle's Close with the count after the first cycle's Close (the runtime opens a few descriptors lazily)"}
 	r0 := c.Rand("cases")
 	n := c.Q(20, 120)
@@ -297,10 +421,11 @@ func RunC08(c *lib.Ctx) {
 	type life struct {
 		per, cycles int
 		snap        bool
+		load        bool
 	}
-	lifes := []life{{0, 2, false}, {1, 3, false}, {5, 3, false}, {40, 2, false}, {6, 3, true}, {30, 2, true}}
+	lifes := []life{{0, 2, false, false}, {1, 3, false, false}, {5, 3, false, false}, {40, 2, false, false}, {6, 3, true, false}, {30, 2, true, false}, {0, 4, false, true}}
 	if c.Thorough() {
-		lifes = append(lifes, life{2, 6, false}, life{17, 4, false}, life{100, 3, false}, life{300, 2, false}, life{3, 8, false}, life{2, 4, true}, life{200, 3, true})
+		lifes = append(lifes, life{2, 6, false, false}, life{17, 4, false, false}, life{100, 3, false, false}, life{300, 2, false, false}, life{3, 8, false, false}, life{2, 4, true, false}, life{200, 3, true, false}, life{0, 8, false, true}, life{1, 8, false, true})
 	}
 	bin := os.Getenv("QV_BIN")
 	if bin == "" {
@@ -313,6 +438,10 @@ func RunC08(c *lib.Ctx) {
 		if lf.snap {
 			id += "-snap"
 			snapArg = "snap"
+		}
+		if lf.load {
+			id += "-load"
+			snapArg = "load"
 		}
 		if c.Only != "" && c.Only != id {
 			return
@@ -376,6 +505,7 @@ func RunC08(c *lib.Ctx) {
 				}
 			}
 			c.Count("node_lifecycles_completed", 1)
+			c.Count("stops_under_load", int64(strings.Count(text, "LIFE-LOAD cycle=")))
 			c.Count("raft_snapshots_taken_inside_lifecycles", int64(strings.Count(text, "raft snapshot taken")))
 			if lf.snap && !strings.Contains(text, "raft snapshot taken") {
 				c.Inconclusive(fmt.Sprintf("lifecycle %s: no raft snapshot could be taken between the insertions", id))
